@@ -6,6 +6,7 @@ import (
 	"fmt"
 	"os"
 	"path/filepath"
+	"sort"
 	"strings"
 
 	badgerdb "github.com/dgraph-io/badger/v4"
@@ -432,3 +433,30 @@ func dumpVal(key string, val []byte) string {
 }
 
 var _ = query.NewQuery
+
+// Logical prints the database as the public API shows it (same format as the driver's "logical").
+func (im *Impl) Logical() string {
+	im.xs.StartOp(-1, false)
+	names, err := im.db.ListCollections()
+	if err != nil {
+		return "logical-error " + err.Error()
+	}
+	parts := []string{}
+	for _, n := range names {
+		infos, _ := im.db.ListIndexes(n)
+		fs := []string{}
+		for _, in := range infos {
+			fs = append(fs, hx(in.Field))
+		}
+		sort.Strings(fs)
+		docs, _ := im.db.FindAll(query.NewQuery(n))
+		ds := []string{}
+		for _, doc := range docs {
+			ds = append(ds, canonDoc(doc.AsMap()))
+		}
+		sort.Slice(ds, func(i, j int) bool { return topId(ds[i]) < topId(ds[j]) })
+		cnt, _ := im.db.Count(query.NewQuery(n))
+		parts = append(parts, hx(n)+"|"+strings.Join(fs, ",")+"|"+fmt.Sprint(cnt)+"|"+strings.Join(ds, ";"))
+	}
+	return "logical " + strings.Join(parts, "#")
+}
